@@ -493,6 +493,17 @@ pub fn draw_case(rng: &mut Rng) -> Case {
                     }
                 }
                 _ => {
+                    if rng.chance(1, 25) {
+                        // bytes of a file of the built-in library
+                        let names = crate::job::std_file_names();
+                        let name = rng.pick(&names).to_string();
+                        let n = crate::job::std_file_content(&name).map(|c| c.len()).unwrap_or(0);
+                        let s0 = if clean { rng.below(n.max(1)) } else { *rng.pick(&[0, 1, n.saturating_sub(1), n, n + 1]) };
+                        let l0 = if clean { rng.range(1, n.saturating_sub(s0).min(6).max(1)) } else { rng.below(8) };
+                        let via = if defs_path.is_some() { *rng.pick(&[Via::Direct, Via::Rule, Via::Fn, Via::AsmBlock, Via::Arg]) } else { Via::Direct };
+                        items.push(Item::IncFn { kind: IncKind::Incbin, spelling: name, start: Some(s0), len: if rng.chance(4, 5) { Some(l0) } else { None }, via });
+                        continue;
+                    }
                     if data.is_empty() {
                         items.push(Item::Marker(marker));
                         marker = marker.wrapping_add(1);
